@@ -214,7 +214,13 @@ func genVC(P *Program, C *Contracts, S *Sorts, key string, pure map[*ssa.Functio
 			if len(tags) == 0 {
 				tags = ct.Tags
 			}
-			f.oblige("ensures", e.Label, implies(retPC, substSX(e.Term, env)), tags, e.Src)
+			eo := f.oblige("ensures", e.Label, implies(retPC, substSX(e.Term, env)), tags, e.Src)
+			if eo != nil && len(f.rets) > 1 && len(f.rets) <= 16 {
+				// one query per return site: the same clause, restricted to that site's path condition
+				for _, r := range f.rets {
+					eo.SubGoals = append(eo.SubGoals, implies(and(retPC, r.pc), substSX(e.Term, env)))
+				}
+			}
 			if os.Getenv("GOVC_SPLIT") != "" {
 				// debugging aid: the same clause per return site
 				for ri, r := range f.rets {
